@@ -21,6 +21,7 @@ import (
 
 	"github.com/youzan/ZanRedisDB/common"
 	"github.com/youzan/ZanRedisDB/engine"
+	"github.com/youzan/ZanRedisDB/internal/verifhook"
 	"github.com/youzan/ZanRedisDB/metric"
 )
 
@@ -155,6 +156,7 @@ func purgeOldCheckpoint(keepNum int, checkpointDir string, latestSnapIndex uint6
 			if sindex >= latestSnapIndex {
 				break
 			}
+			verifhook.Crash("purge.ckpt")
 			os.RemoveAll(sortedNameList[i])
 			dbLog.Infof("clean checkpoint : %v", sortedNameList[i])
 		}
@@ -835,7 +837,9 @@ func (r *RockDB) backupLoop() {
 					os.RemoveAll(rsp.backupDir)
 				}
 				rsp.rsp = []byte(rsp.backupDir)
+				verifhook.Crash("ckpt.before_save")
 				err = ck.Save(rsp.backupDir, rsp.started)
+				verifhook.Crash("ckpt.after_save")
 				r.checkpointDirLock.Unlock()
 				if err != nil {
 					dbLog.Infof("save checkpoint failed: %v", err)
@@ -1036,6 +1040,7 @@ func (r *RockDB) restoreFromPath(backupDir string, term uint64, index uint64) er
 		return errors.New("db is quiting")
 	default:
 	}
+	verifhook.Crash("restore.engine_closed")
 	// 1. remove all files in current db except sst files
 	// 2. get the list of sst in checkpoint
 	// 3. remove all the sst files not in the checkpoint list
@@ -1078,11 +1083,13 @@ func (r *RockDB) restoreFromPath(backupDir string, term uint64, index uint64) er
 		dbLog.Infof("removing: %v", fn)
 		os.RemoveAll(fn)
 	}
+	verifhook.Crash("restore.files_removed")
 	for _, fn := range ckNameList {
 		if strings.HasPrefix(path.Base(fn), "LOG") {
 			dbLog.Infof("ignore copy LOG file: %v", fn)
 			continue
 		}
+		verifhook.Crash("restore.copying")
 		dst := path.Join(r.GetDataDir(), path.Base(fn))
 		var err error
 		if strings.HasSuffix(fn, ".sst") {
@@ -1098,6 +1105,7 @@ func (r *RockDB) restoreFromPath(backupDir string, term uint64, index uint64) er
 		}
 	}
 
+	verifhook.Crash("restore.before_reopen")
 	err = r.reOpenEng()
 	dbLog.Infof("restore done, cost: %v\n", time.Now().Sub(start))
 	if err != nil {
@@ -1189,7 +1197,6 @@ func (r *RockDB) applyPendingPFCacheDel(committed bool) {
 	}
 	r.pendingPFCacheDel = r.pendingPFCacheDel[:0]
 }
-
 
 func IsNeedAbortError(err error) bool {
 	// for the error which will not touch write batch no need abort
